@@ -34,7 +34,7 @@ Ltac bool_to_prop :=
 
 Ltac nav_unfold :=
   cbv [nav_link_ok target_ok list_page single_page lookup_page lookup_entity list_pages entity_pages
-       nl_cond nl_target nl_template nl_label region_index_files is_index_files wf_counts
+       nl_cond nl_target nl_template nl_label wf_counts
        str_eqb s list_ascii_of_string Ascii.eqb Bool.eqb implb andb orb negb fst snd] in *.
 Ltac nav_compute := nav_unfold; autounfold with navconds in *; nav_unfold.
 
@@ -52,54 +52,43 @@ Ltac nav_solve :=
   nav_compute; split_ifs; bool_to_prop; destruct_goal_atoms; bool_to_prop;
   try reflexivity; try discriminate; try congruence; try (exfalso; lia); try lia.
 
-Theorem nav_pages_partial : forall l c,
-  In l nav_links -> wf_counts c = true -> region_index_files l c = false ->
-  nav_link_ok l c = true.
+(* every navigation link of base.html / index.html, for all collection sizes and flags *)
+Theorem nav_pages : forall l c,
+  In l nav_links -> wf_counts c = true -> nav_link_ok l c = true.
 Proof.
-  intros l c HIn Hwf Hreg. unfold nav_links in HIn.
+  intros l c HIn Hwf. unfold nav_links in HIn.
   repeat (destruct HIn as [<- | HIn]; [nav_solve|]).
   destruct HIn.
 Qed.
 
-(* the region is exact: inside it the emitted link has no target *)
-Theorem nav_region_exact : forall l c,
-  In l nav_links -> wf_counts c = true -> region_index_files l c = true ->
-  nl_cond l c = true -> target_ok (nl_target l) c = false.
+(* non-vacuity: on a one-file project (the shape on which the front page used to link the unwritten
+   lists/files.html) the project is well-formed, some link is emitted, and all of them have targets *)
+Example nav_pages_nonvacuous :
+  wf_counts sample_one_file = true /\
+  (exists l, In l nav_links /\ nl_cond l sample_one_file = true /\
+             target_ok (nl_target l) sample_one_file = true) /\
+  all_links_ok sample_one_file = true.
 Proof.
-  intros l c HIn Hwf Hreg Hc. unfold nav_links in HIn.
-  repeat (destruct HIn as [<- | HIn]; [nav_solve|]).
-  destruct HIn.
-Qed.
-
-Definition nav_pages_statement : Prop :=
-  forall l c, In l nav_links -> wf_counts c = true -> nav_link_ok l c = true.
-
-(* one source file, incl_src (the default): the front page links lists/files.html, which is not written *)
-Definition witness_counts : counts := sample_one_file.
-
-Theorem nav_pages_refuted : ~ nav_pages_statement.
-Proof.
-  intros H.
-  assert (E : all_links_ok witness_counts = true).
-  { unfold all_links_ok. apply forallb_forall. intros l Hl. now apply H. }
-  vm_compute in E. discriminate E.
-Qed.
-
-Example nav_partial_nonvacuous :
-  exists l, In l nav_links /\ wf_counts witness_counts = true /\
-            region_index_files l witness_counts = false /\ nl_cond l witness_counts = true.
-Proof.
-  destruct (find (fun l => negb (is_index_files l) && nl_cond l witness_counts) nav_links) as [l|] eqn:E;
+  split; [reflexivity|]. split; [|vm_compute; reflexivity].
+  destruct (find (fun l => nl_cond l sample_one_file) nav_links) as [l|] eqn:E;
     [|vm_compute in E; discriminate E].
-  exists l. apply find_some in E as [HIn E]. apply andb_true_iff in E as [E1 E2].
-  repeat split; auto. unfold region_index_files. apply negb_true_iff in E1. now rewrite E1.
+  exists l. apply find_some in E as [HIn E]. repeat split; auto.
+  pose proof (nav_pages l sample_one_file HIn eq_refl) as H.
+  unfold nav_link_ok in H. now rewrite E in H.
 Qed.
 
-Example nav_region_nonvacuous :
-  exists l, In l nav_links /\ wf_counts witness_counts = true /\
-            region_index_files l witness_counts = true /\ nl_cond l witness_counts = true.
+(* the link that used to be dead is present in the list and is now guarded *)
+Example nav_files_link_guarded :
+  exists l, In l nav_links /\ nl_template l = s "index.html" /\ nl_target l = TList (s "files.html") /\
+            nl_cond l sample_one_file = false.
 Proof.
-  destruct (find (fun l => region_index_files l witness_counts && nl_cond l witness_counts) nav_links)
-    as [l|] eqn:E; [|vm_compute in E; discriminate E].
-  exists l. apply find_some in E as [HIn E]. apply andb_true_iff in E as [E1 E2]. auto.
+  destruct (find (fun l => str_eqb (nl_template l) (s "index.html") &&
+                           match nl_target l with TList p => str_eqb p (s "files.html") | _ => false end)
+                 nav_links) as [l|] eqn:E; [|vm_compute in E; discriminate E].
+  exists l. apply find_some in E as [HIn E]. apply andb_true_iff in E as [E1 E2].
+  apply str_eqb_eq in E1. destruct (nl_target l) as [pg|] eqn:T; [|discriminate].
+  apply str_eqb_eq in E2. subst pg. repeat split; auto.
+  revert HIn E1 T. unfold nav_links. simpl In.
+  intros HIn. repeat (destruct HIn as [<- | HIn]; [try (intros; vm_compute; reflexivity); try (vm_compute; intros; discriminate)|]).
+  destruct HIn.
 Qed.
